@@ -61,13 +61,13 @@ func init() {
 		},
 		Bounds: func(tier string) map[string]any {
 			if tier == "thorough" {
-				return map[string]any{"N_full": 5, "N_paren": 10, "N_bool": 9, "N_range": 8, "N_unary": 8, "N_cmp": 8, "edit": "EDIT(1) T(21,1) ∪ T(6,2); EDIT(2) leaves"}
+				return map[string]any{"N_full": 5, "N_paren": 10, "N_bool": 9, "N_range": 8, "N_unary": 8, "N_cmp": 8, "edit": "EDIT(1) T(25,1) ∪ T(6,2); EDIT(2) leaves"}
 			}
-			return map[string]any{"N_full": 4, "N_focused": 7, "edit": "EDIT(1) T(21,1)"}
+			return map[string]any{"N_full": 4, "N_focused": 7, "edit": "EDIT(1) T(25,1)"}
 		},
 		Deadline: func(tier string) int {
 			if tier == "thorough" {
-				return 3000
+				return 1000
 			}
 			return 300
 		},
